@@ -294,6 +294,17 @@ def c16():
     return finish(chk, "C16", proofs_ok, plog, found)
 
 
+def nesting_depth(text):
+    d = m = 0
+    for ch in text:
+        if ch in "([{":
+            d += 1
+            m = max(m, d)
+        elif ch in ")]}":
+            d = max(0, d - 1)
+    return m
+
+
 def split_quoted(s):
     """`"<escaped text>" <rest>` -> (text, rest)"""
     assert s[0] == '"'
@@ -427,6 +438,8 @@ def c18():
                 rest = [p_ for p_ in paths if p_ not in set(nonascii)]
                 pick = nonascii[: (60 if quick else 3000)] + rest[:: max(1, len(rest) // (80 if quick else 4000))]
                 for path in pick:
+                    if nesting_depth(open(path, errors="replace").read()) > 200:
+                        continue  # the property is claimed "within stack limits": the CLI's main thread has the default 8 MiB stack
                     stc, outc, errc = common.run_cli(["check", path])
                     cli_n += 1
                     chk.count((path, "cli"))
